@@ -356,7 +356,7 @@ class Exec(ExecExpr):
         rterm = fresh('ret_' + short.split('.')[-1], Val)
         res = SV(rterm, c.returns)
         n.assume(shape(n, rterm, c.returns))
-        for lab, text in c.labelled(c.ensures):
+        for lab, text in c.labelled(list(c.ensures) + list(c.defines)):
             sev2 = SP.SpecEval(n, env, modname, old=old, result=res, extra=lets)
             n.assume(sev2.bool(text))
             for f in sev2.typing:
